@@ -142,6 +142,9 @@ fn parse_overlay(src: &str, fname: &str) -> (String, Vec<Dir>) {
                             "ret" => {
                                 fd.ret = Some(w.collect::<Vec<_>>().join(" "));
                             }
+                            "table" => {
+                                cur = Some(Section { kind, ord: 0, snippet, arg: String::new(), text: String::new(), line: i + 2 });
+                            }
                             "sig" | "entry" | "exit" | "fields" => {
                                 cur = Some(Section { kind, ord: 0, snippet, arg: String::new(), text: String::new(), line: i + 2 });
                             }
@@ -327,6 +330,7 @@ struct StmtInfo {
     start: usize,
     end: usize,
     norm: String,
+    depth: usize,
     // loop info
     loop_body: Option<(usize, usize)>, // byte offset of '{' and of '}' of the loop body
 }
@@ -338,6 +342,8 @@ struct ClosureInfo {
 }
 
 struct FnScan<'a> {
+    depth: usize,
+    block_counter: usize,
     src: &'a str,
     stmts: Vec<StmtInfo>,
     closures: Vec<ClosureInfo>,
@@ -473,7 +479,7 @@ impl<'a, 'ast> Visit<'ast> for FnScan<'a> {
             syn::Stmt::Expr(e, _) => loop_body_of(e),
             _ => None,
         };
-        self.stmts.push(StmtInfo { start, end, norm: norm.trim().to_string(), loop_body });
+        self.stmts.push(StmtInfo { start, end, norm: norm.trim().to_string(), loop_body, depth: self.depth });
 
         // R7 quiet-print elision: `if !self.quiet { println!…; }` with print-only body and no else
         if self.rules.quiet_print {
@@ -509,6 +515,15 @@ impl<'a, 'ast> Visit<'ast> for FnScan<'a> {
             }
         }
         syn::visit::visit_stmt(self, s);
+    }
+
+    fn visit_block(&mut self, b: &'ast syn::Block) {
+        // `depth` holds the ordinal of the enclosing block (statements with equal values are siblings)
+        let saved = self.depth;
+        self.block_counter += 1;
+        self.depth = self.block_counter;
+        syn::visit::visit_block(self, b);
+        self.depth = saved;
     }
 
     fn visit_expr_macro(&mut self, m: &'ast syn::ExprMacro) {
@@ -910,6 +925,16 @@ fn main() {
                                 let open = im.brace_token.span.open().byte_range().start;
                                 em.push(&sf.text[kw..open + 1], &format!("S:{}", sf.rel), sf.line_of(kw));
                                 em.push("\n", "G", 0);
+                                // associated types / consts of the impl block come along verbatim
+                                for ii in im.items.iter() {
+                                    if let syn::ImplItem::Type(_) | syn::ImplItem::Const(_) = ii {
+                                        if im.trait_.is_some() || matches!(ii, syn::ImplItem::Type(_)) {
+                                            let (a, b) = brange(ii);
+                                            em.push(&sf.text[a..b], &format!("S:{}", sf.rel), sf.line_of(a));
+                                            em.push("\n", "G", 0);
+                                        }
+                                    }
+                                }
                                 item_log.push(format!(
                                     "{{\"kind\":\"impl-header\",\"file\":{},\"byte_start\":{},\"byte_end\":{},\"line_start\":{}}}",
                                     jesc(&srcname), kw, open + 1, sf.line_of(kw)
@@ -921,7 +946,7 @@ fn main() {
                     None => close_impl(&mut em, &mut open_impl),
                 }
 
-                let mut scan = FnScan { src: &sf.text, stmts: vec![], closures: vec![], edits: vec![], rules: &rules, seq: 1000 };
+                let mut scan = FnScan { depth: 0, block_counter: 0, src: &sf.text, stmts: vec![], closures: vec![], edits: vec![], rules: &rules, seq: 1000 };
                 let body_open = block.brace_token.span.open().byte_range().start;
                 let body_close = block.brace_token.span.close().byte_range().start;
                 if !fd.trusted {
@@ -932,25 +957,134 @@ fn main() {
                 let closures = std::mem::take(&mut scan.closures);
                 let mut seq = 0usize;
                 attr_edits(&attrs, &rules, &sf.text, &mut edits, &mut seq);
-                vis_edit(&vis, brange(&sig).0, &rules, &mut edits, &mut seq);
+                let in_trait_impl = match impl_idx {
+                    Some(idx) => matches!(&sf.items[idx].1, syn::Item::Impl(im) if im.trait_.is_some()),
+                    None => false,
+                };
+                if !in_trait_impl {
+                    vis_edit(&vis, brange(&sig).0, &rules, &mut edits, &mut seq);
+                }
 
-                // statement count guard
+                // statement table of the overlay (snippets recorded when the overlay was written) aligned with the
+                // statements found now (longest common subsequence); edited-in-place statements are paired inside gaps
+                let table: Vec<String> = fd
+                    .sections
+                    .iter()
+                    .filter(|s| s.kind == "table")
+                    .flat_map(|s| s.text.lines().map(|l| l.to_string()).collect::<Vec<_>>())
+                    .filter_map(|l| {
+                        let a = l.find('«')?;
+                        let b = l.rfind('»')?;
+                        Some(norm_str(&l[a + '«'.len_utf8()..b]))
+                    })
+                    .collect();
+                let table_depth: Vec<usize> = fd
+                    .sections
+                    .iter()
+                    .filter(|s| s.kind == "table")
+                    .flat_map(|s| s.text.lines().map(|l| l.to_string()).collect::<Vec<_>>())
+                    .filter(|l| l.contains('«'))
+                    .map(|l| l.split_whitespace().find_map(|w| w.strip_prefix('d').and_then(|d| d.parse::<usize>().ok())).unwrap_or(1))
+                    .collect();
+                // old ordinal (0-based) -> (new index, exact?)   None = statement no longer present
+                let mut align: Vec<Option<usize>> = vec![None; table.len()];
+                let mut deleted_next: Vec<Option<usize>> = vec![None; table.len()];
+                if !table.is_empty() {
+                    let n = table.len();
+                    let m = stmts.len();
+                    let eq = |i: usize, j: usize| stmts[j].norm.starts_with(&table[i]);
+                    let mut dp = vec![vec![0usize; m + 1]; n + 1];
+                    for i in (0..n).rev() {
+                        for j in (0..m).rev() {
+                            dp[i][j] = if eq(i, j) { dp[i + 1][j + 1] + 1 } else { dp[i + 1][j].max(dp[i][j + 1]) };
+                        }
+                    }
+                    let (mut i, mut j) = (0usize, 0usize);
+                    let mut pairs: Vec<(usize, usize)> = vec![];
+                    while i < n && j < m {
+                        if eq(i, j) && dp[i][j] == dp[i + 1][j + 1] + 1 {
+                            pairs.push((i, j));
+                            i += 1;
+                            j += 1;
+                        } else if dp[i + 1][j] >= dp[i][j + 1] {
+                            i += 1;
+                        } else {
+                            j += 1;
+                        }
+                    }
+                    for (a, b) in pairs.iter() {
+                        align[*a] = Some(*b);
+                    }
+                    // gaps: pair unmatched old with unmatched new in order (edited in place)
+                    let mut bounds: Vec<(usize, usize)> = vec![];
+                    let mut pa = 0usize;
+                    let mut pb = 0usize;
+                    for (a, b) in pairs.iter().cloned().chain(std::iter::once((n, m))) {
+                        bounds.push((pa, pb));
+                        let olds: Vec<usize> = (pa..a).collect();
+                        let news: Vec<usize> = (pb..b).collect();
+                        for (k, o) in olds.iter().enumerate() {
+                            if k < news.len() {
+                                align[*o] = Some(news[k]);
+                            } else {
+                                deleted_next[*o] = Some(b); // next surviving statement (may be == m: end of function)
+                            }
+                        }
+                        pa = a + 1;
+                        pb = b + 1;
+                    }
+                    let matched = pairs.len();
+                    if matched * 2 < n.max(m) {
+                        die(2, &format!("LOST-ANCHOR unit={} fn={}: only {} of {} statements of the function still match the overlay's statement table", unit, fd.path, matched, n.max(m)));
+                    }
+                }
                 let count_same = fd.stmts.map(|n| n == stmts.len());
-                let resolve = |sec: &Section| -> usize {
-                    // returns index into stmts
-                    let want = norm_str(&sec.snippet);
+                // returns (index into stmts, deleted?)  — for a deleted statement the index is the next surviving one
+                let resolve2 = |sec: &Section| -> (usize, bool) {
                     let k = sec.ord;
+                    if !table.is_empty() {
+                        if k >= 1 && k <= table.len() {
+                            if let Some(j) = align[k - 1] {
+                                return (j, false);
+                            }
+                            let _ = &deleted_next;
+                            // deleted statement: go to the end of the previous sibling (same block), else to the start of the next sibling
+                            let d = table_depth[k - 1];
+                            let mut p = k - 1;
+                            while p > 0 {
+                                p -= 1;
+                                if table_depth[p] == d {
+                                    if let Some(j) = align[p] {
+                                        return (j, true); // "after j"
+                                    }
+                                    break;
+                                }
+                            }
+                            let mut q = k;
+                            while q < table.len() {
+                                if table_depth[q] == d {
+                                    if let Some(j) = align[q] {
+                                        return (j + 1_000_000, true); // "before j"
+                                    }
+                                    break;
+                                }
+                                q += 1;
+                            }
+                        }
+                        die(2, &format!("LOST-ANCHOR unit={} fn={} anchor=@{} {} (overlay line {}): statement no longer present and nothing follows it", unit, fd.path, sec.kind, sec.ord, sec.line));
+                    }
+                    let want = norm_str(&sec.snippet);
                     if k >= 1 && k <= stmts.len() && (want.is_empty() || stmts[k - 1].norm.starts_with(&want)) {
-                        return k - 1;
+                        return (k - 1, false);
                     }
                     if !want.is_empty() {
                         let hits: Vec<usize> = stmts.iter().enumerate().filter(|(_, s)| s.norm.starts_with(&want)).map(|(i, _)| i).collect();
                         if hits.len() == 1 {
-                            return hits[0];
+                            return (hits[0], false);
                         }
                     }
                     if count_same == Some(true) && k >= 1 && k <= stmts.len() {
-                        return k - 1; // statement edited in place
+                        return (k - 1, false); // statement edited in place
                     }
                     die(
                         2,
@@ -959,6 +1093,28 @@ fn main() {
                             unit, fd.path, sec.kind, sec.ord, sec.snippet, sec.line, stmts.len(), fd.stmts
                         ),
                     )
+                };
+                // insertion position for @before / @after anchors
+                let resolve_pos = |sec: &Section| -> (usize, bool) {
+                    let (j, deleted) = resolve2(sec);
+                    if deleted {
+                        if j >= 1_000_000 {
+                            (stmts[j - 1_000_000].start, false)
+                        } else {
+                            (stmts[j].end, true)
+                        }
+                    } else if sec.kind == "after" {
+                        (stmts[j].end, true)
+                    } else {
+                        (stmts[j].start, false)
+                    }
+                };
+                let resolve = |sec: &Section| -> usize {
+                    let (j, deleted) = resolve2(sec);
+                    if deleted && sec.kind != "before" && sec.kind != "after" {
+                        die(2, &format!("LOST-ANCHOR unit={} fn={} anchor=@{} {} (overlay line {}): the loop is no longer present", unit, fd.path, sec.kind, sec.ord, sec.line));
+                    }
+                    j
                 };
 
                 if let Some(r) = &fd.ret {
@@ -979,13 +1135,13 @@ fn main() {
                         "sig" => edits.push(mk(body_open, format!("\n{}", sec.text), seq)),
                         "entry" => edits.push(mk(body_open + 1, format!("\n{}", sec.text), seq + 500)),
                         "exit" => edits.push(mk(body_close, sec.text.clone(), seq)),
-                        "before" => {
-                            let k = resolve(sec);
-                            edits.push(mk(stmts[k].start, sec.text.clone(), seq));
-                        }
-                        "after" => {
-                            let k = resolve(sec);
-                            edits.push(mk(stmts[k].end, format!("\n{}", sec.text), seq + 2000));
+                        "before" | "after" => {
+                            let (pos, after_style) = resolve_pos(sec);
+                            if after_style {
+                                edits.push(mk(pos, format!("\n{}", sec.text), seq + 2000));
+                            } else {
+                                edits.push(mk(pos, sec.text.clone(), seq));
+                            }
                         }
                         "inv" | "body-begin" | "body-end" => {
                             let k = resolve(sec);
@@ -1038,7 +1194,7 @@ fn main() {
                     em.push(&format!("/*@I{}}}*/", item_no), "G", 0);
                     em.push("\n\n", "G", 0);
                 }
-                let stmt_json: Vec<String> = stmts.iter().enumerate().map(|(i, s)| format!("[{},{},{}]", i + 1, sf.line_of(s.start), jesc(&s.norm.chars().take(60).collect::<String>()))).collect();
+                let stmt_json: Vec<String> = stmts.iter().enumerate().map(|(i, s)| format!("[{},{},{},{}]", i + 1, sf.line_of(s.start), jesc(&s.norm.chars().take(60).collect::<String>()), s.depth)).collect();
                 item_log.push(format!(
                     "{{\"kind\":\"fn\",\"no\":{},\"path\":{},\"trusted\":{},\"props\":[{}],\"file\":{},\"byte_start\":{},\"byte_end\":{},\"body_open\":{},\"line_start\":{},\"line_end\":{},\"gen_line_start\":{},\"gen_line_end\":{},\"n_stmts\":{},\"n_closures\":{},\"stmts\":[{}]}}",
                     item_no, jesc(&fd.path), fd.trusted, fd.props.iter().map(|p| jesc(p)).collect::<Vec<_>>().join(","), jesc(&srcname), fs, fe, body_open,
